@@ -1,4 +1,4 @@
-import EaselModel.Getopts.Sources
+import EaselModel.Getopts.Stops
 import EaselModel.Getopts.Abbrev
 /-! # C14 — option processing resolves every configuration by the documented rules
 
@@ -13,7 +13,7 @@ and every sequence of sources:
   `same_source_twice_is_usage_error`, `set_after_toggle_by_same_source_is_usage_error`
 * (b) toggles: `set_option_spec`, `toggle_switches_others_off`
 * (c) abbreviations: `abbrev_full_name_resolves`, `abbrev_resolves_iff_unique`, `abbrev_ambiguous_iff`, `abbrev_unknown_iff`
-* (d) `--`, arguments in order: `dashdash_ends_options`, `first_nonoption_ends_options`, `args_returned_in_order`, `getArg_spec`
+* (d) `--`, arguments in order: `dashdash_ends_options`, `first_nonoption_ends_options`, `options_end_where_documented`, `args_returned_in_order`, `getArg_spec`
 * "plus/minus-prefixed booleans": no such feature exists in this version; `plus_word_is_argument` states what the code does.
 * (e) usage errors, never a crash: `cmdline_ends_cleanly`, `spoof_ends_cleanly`, `environment_ends_cleanly`,
   `configfile_ends_cleanly`, `rejected_setting_changes_nothing`, `unknown_long_option`, `ambiguous_long_option`,
@@ -117,6 +117,11 @@ theorem first_nonoption_ends_options (g : G) (k : Nat) (w : Str) (rest : List St
 theorem plus_word_is_argument (g : G) (k : Nat) (r : Str) (rest : List Str) :
     cmdLoop g k (('+' :: r) :: rest) false = .done { g with optind := k } .ok false :=
   cmdLoop_argword g k _ rest (plus_is_argword r)
+
+/-- a successfully processed command line stops at the end of argv, at the first non-option word (no leading `-`,
+    or `-` alone), or immediately after a `--`; `optind` is that position and `argv` is kept -/
+theorem options_end_where_documented (g g' : G) (argv : List Str) (m : Bool) (h : processCmdline g argv = .done g' .ok m) :
+    g'.argv = argv ∧ StopsAt 1 (argv.drop 1) g'.optind := processCmdline_stops g g' argv m h
 
 theorem args_returned_in_order (g : G) (pre rest : List Str) (hargv : g.argv = pre ++ rest) (hk : g.optind = pre.length) (n : Nat) :
     getArg g ((n : Int) + 1) = rest[n]? ∧ argNumber g = rest.length := getArg_of_split g pre rest hargv hk n
